@@ -8,11 +8,12 @@
      13 Reverse zs           14 ReverseStr runes       15 Shuffle seed zs stream
      16 Map k zs             17 ForEach zs             18 ForEachRight zs
      19 Reduce op init zs    20 Unzip(Zip(zss)...)     21 Zip(Unzip(zss)...)
+     22 Chunk zs hi lo       23 Drop zs hi lo    (size / count = hi*2^32 + lo)
    predicates (p, pa): 0 true, 1 false, 2 even, 3 (< pa), 4 (== pa)
    key functions k: as in C11_Wire.  Reduce ops: 0 acc+v, 1 2*acc+v, 2 v-acc
    Shuffle: stream = enc_zs of (hi, lo) pairs, the k-th rand.Int() = hi*2^32+lo
    tree: the prefix code of C11_Wire.
-   output: slices enc_zs, matrices enc_zss; panicking calls / in-place loops as
+   output: slices enc_zs, matrices enc_zss; panicking calls (Chunk, Drop, Zip, Unzip) / in-place loops as
    0 :: payload | [2] (panic) | [3] (model out of fuel: never); Flatten as
    enc_r1; GroupBy as the key-sorted list of (key, group); iterators return
    the result followed by the callback's call log. *)
@@ -44,7 +45,8 @@ Fixpoint stream_vals (l : list Z) : list Z :=
   | hi :: lo :: r => (hi * 4294967296 + lo) :: stream_vals r
   | _ => []
   end.
-Definition stream_of (l : list Z) : nat -> Z := fun k => nth k (stream_vals l) 0.
+(* the values are computed once per case, not once per call *)
+Definition stream_of (l : list Z) : nat -> Z := let vs := stream_vals l in fun k => nth k vs 0.
 
 Fixpoint ginsert (x : Z * list Z) (l : list (Z * list Z)) : list (Z * list Z) :=
   match l with
@@ -54,6 +56,9 @@ Fixpoint ginsert (x : Z * list Z) (l : list (Z * list Z)) : list (Z * list Z) :=
 Definition gsort (l : list (Z * list Z)) : list (Z * list Z) := fold_right ginsert [] l.
 Definition enc_groups (l : list (Z * list Z)) : list Z :=
   Z.of_nat (length l) :: flat_map (fun kg => fst kg :: enc_zs (snd kg)) l.
+
+(* an int argument sent as two words (the runner's words are 63-bit): hi*2^32 + lo *)
+Definition wide (hi lo : Z) : Z := hi * 4294967296 + lo.
 
 Definition bind_res {A B} (r : res A) (f : A -> res B) : res B :=
   match r with Ok a => f a | Err k => Err k | Panic => Panic end.
@@ -68,60 +73,111 @@ Definition with_zs (a : list Z) (f : list Z -> list Z) : list Z :=
 Definition with_zss (a : list Z) (f : list (list Z) -> list Z) : list Z :=
   match rd_zss a with Some (m, []) => f m | _ => wire_error end.
 
-Definition c12_run (w : list Z) : list Z :=
-  match w with
-  | fn :: a =>
-      match fn with
-      | 1 => match rd_zs a with Some (l, [n]) => enc_res enc_zss (chunk l n) | _ => wire_error end
-      | 2 => with_pred a (fun p l => let r := partition_go p l in enc_zs (fst r) ++ enc_zs (snd r))
-      | 3 => with_pred a (fun p l => enc_zs (filter_go p l))
-      | 4 => with_pred a (fun p l => enc_loop enc_zs (reject p l))
-      | 5 => with_pred a (fun p l => enc_zs (drop_while p l))
-      | 6 => with_pred a (fun p l => enc_zs (drop_right_while p l))
-      | 7 => match a with
-             | k :: a' => with_zs a' (fun l => enc_res (fun g => enc_groups (gsort g)) (group_by Z.eq_dec (key_of k) l))
-             | _ => wire_error end
-      | 8 => with_zss a (fun m => enc_res enc_zss (zip 0 m))
-      | 9 => with_zss a (fun m => enc_res enc_zss (unzip 0 m))
-      | 10 => match rd_nest (S (length a)) a with
-              | Some (t, []) => enc_r1 enc_zs (flatten t)
-              | _ => wire_error end
-      | 11 => match rd_zs a with
-              | Some (s, a') => with_zss a' (fun ps => enc_zs (merge s ps))
-              | _ => wire_error end
-      | 12 => match rd_zs a with Some (l, [n]) => enc_zs (drop l n) | _ => wire_error end
-      | 13 => with_zs a (fun l => enc_loop enc_zs (reverse l))
-      | 14 => with_zs a (fun l => enc_loop enc_zs (reverse_str l))
-      | 15 => match a with
-              | _seed :: a' =>
-                  match rd_zs a' with
-                  | Some (l, a'') => with_zs a'' (fun st => enc_loop enc_zs (shuffle l (stream_of st)))
-                  | _ => wire_error end
-              | _ => wire_error end
-      | 16 => match a with
-              | k :: a' => with_zs a' (fun l => let r := map_go (key_of k) l in enc_zs (fst r) ++ enc_zs (snd r))
-              | _ => wire_error end
-      | 17 => with_zs a (fun l => enc_zs (for_each l))
-      | 18 => with_zs a (fun l => enc_zs (for_each_right l))
-      | 19 => match a with
-              | op :: init :: a' =>
-                  with_zs a' (fun l => let r := reduce_go (op_of op) l init in fst r :: enc_pairs (snd r))
-              | _ => wire_error end
-      | 20 => with_zss a (fun m => enc_res enc_zss (bind_res (zip 0 m) (unzip 0)))
-      | 21 => with_zss a (fun m => enc_res enc_zss (bind_res (unzip 0 m) (zip 0)))
-      | _ => wire_error
-      end
-  | [] => wire_error
-  end.
+(* one dispatcher, instantiated with the model functions ([c12_run]) and with
+   the reference definitions of the specification ([c12_spec]) *)
+Section Dispatch.
+  Context (f_chunk : list Z -> Z -> res (list (list Z)))
+          (f_partition : (Z -> bool) -> list Z -> list Z * list Z)
+          (f_filter : (Z -> bool) -> list Z -> list Z)
+          (f_reject : (Z -> bool) -> list Z -> loop (list Z))
+          (f_drop_while f_drop_right_while : (Z -> bool) -> list Z -> list Z)
+          (f_group_by : (Z -> Z) -> list Z -> res (list (Z * list Z)))
+          (f_zip f_unzip : list (list Z) -> res (list (list Z)))
+          (f_flatten : nest Z -> res (list Z))
+          (f_merge : list Z -> list (list Z) -> list Z)
+          (f_drop : list Z -> Z -> res (list Z))
+          (f_reverse f_reverse_str : list Z -> loop (list Z))
+          (f_shuffle : list Z -> (nat -> Z) -> loop (list Z))
+          (f_map : (Z -> Z) -> list Z -> list Z * list Z)
+          (f_for_each f_for_each_right : list Z -> list Z)
+          (f_reduce : (Z -> Z -> Z) -> list Z -> Z -> Z * list (Z * Z))
+          (f_unzip_zip f_zip_unzip : list (list Z) -> res (list (list Z))).
+
+  Definition dispatch12 (w : list Z) : list Z :=
+    match w with
+    | fn :: a =>
+        match fn with
+        | 1 => match rd_zs a with Some (l, [n]) => enc_res enc_zss (f_chunk l n) | _ => wire_error end
+        | 2 => with_pred a (fun p l => let r := f_partition p l in enc_zs (fst r) ++ enc_zs (snd r))
+        | 3 => with_pred a (fun p l => enc_zs (f_filter p l))
+        | 4 => with_pred a (fun p l => enc_loop enc_zs (f_reject p l))
+        | 5 => with_pred a (fun p l => enc_zs (f_drop_while p l))
+        | 6 => with_pred a (fun p l => enc_zs (f_drop_right_while p l))
+        | 7 => match a with
+               | k :: a' => with_zs a' (fun l => enc_res (fun g => enc_groups (gsort g)) (f_group_by (key_of k) l))
+               | _ => wire_error end
+        | 8 => with_zss a (fun m => enc_res enc_zss (f_zip m))
+        | 9 => with_zss a (fun m => enc_res enc_zss (f_unzip m))
+        | 10 => match rd_nest (S (length a)) a with
+                | Some (t, []) => enc_r1 enc_zs (f_flatten t)
+                | _ => wire_error end
+        | 11 => match rd_zs a with
+                | Some (s, a') => with_zss a' (fun ps => enc_zs (f_merge s ps))
+                | _ => wire_error end
+        | 12 => match rd_zs a with Some (l, [n]) => enc_res enc_zs (f_drop l n) | _ => wire_error end
+        | 13 => with_zs a (fun l => enc_loop enc_zs (f_reverse l))
+        | 14 => with_zs a (fun l => enc_loop enc_zs (f_reverse_str l))
+        | 15 => match a with
+                | _seed :: a' =>
+                    match rd_zs a' with
+                    | Some (l, a'') => with_zs a'' (fun st => enc_loop enc_zs (f_shuffle l (stream_of st)))
+                    | _ => wire_error end
+                | _ => wire_error end
+        | 16 => match a with
+                | k :: a' => with_zs a' (fun l => let r := f_map (key_of k) l in enc_zs (fst r) ++ enc_zs (snd r))
+                | _ => wire_error end
+        | 17 => with_zs a (fun l => enc_zs (f_for_each l))
+        | 18 => with_zs a (fun l => enc_zs (f_for_each_right l))
+        | 19 => match a with
+                | op :: init :: a' =>
+                    with_zs a' (fun l => let r := f_reduce (op_of op) l init in fst r :: enc_pairs (snd r))
+                | _ => wire_error end
+        | 20 => with_zss a (fun m => enc_res enc_zss (f_unzip_zip m))
+        | 21 => with_zss a (fun m => enc_res enc_zss (f_zip_unzip m))
+        | 22 => match rd_zs a with Some (l, [hi; lo]) => enc_res enc_zss (f_chunk l (wide hi lo)) | _ => wire_error end
+        | 23 => match rd_zs a with Some (l, [hi; lo]) => enc_res enc_zs (f_drop l (wide hi lo)) | _ => wire_error end
+        | _ => wire_error
+        end
+    | [] => wire_error
+    end.
+End Dispatch.
+
+(* the model (the Go loops of C12_Model.v) *)
+Definition c12_run : list Z -> list Z :=
+  dispatch12 chunk partition_go filter_go reject drop_while drop_right_while
+             (group_by Z.eq_dec) (zip 0) (unzip 0) flatten merge drop reverse reverse_str shuffle
+             map_go for_each for_each_right reduce_go
+             (fun m => bind_res (zip 0 m) (unzip 0)) (fun m => bind_res (unzip 0 m) (zip 0)).
+
+(* the specification: the reference definitions the theorems of C12_Props.v
+   relate the model to (cut-n-at-a-time, filter, rev, one group per key,
+   transpose of a square matrix, leaves, concat, skipn/firstn, the call logs) —
+   none of them is written as a loop over indices.  Shuffle has no reference
+   result: the property only asks for a permutation (see [c12_holds]). *)
+Definition np (p : Z -> bool) : Z -> bool := fun x => negb (p x).
+Definition c12_spec : list Z -> list Z :=
+  dispatch12 chunk_spec_ref
+             (fun p l => (filter p l, filter (np p) l))
+             (fun p l => filter p l)
+             (fun p l => Fin (filter (np p) l))
+             (fun p l => filter (np p) l)
+             (fun p l => rev (filter (np p) l))
+             (fun k l => Ok (group_by_ref Z.eq_dec k l))
+             (transpose_ref 0) (transpose_ref 0) flatten_ref
+             (fun s ps => concat (s :: ps)) (fun l n => Ok (drop_ref l n))
+             (fun l => Fin (rev l)) (fun l => Fin (rev l))
+             shuffle
+             (fun k l => (map k l, l)) (fun l => l) (fun l => rev l)
+             (fun op l init => (fold_left (fun acc v => op v acc) l init, reduce_log op l init))
+             round_trip_ref round_trip_ref.
 
 Definition c12_agree (w obs : list Z) : bool := zlist_eqb obs (c12_run w).
 
-(* The property determines every observable uniquely (C12_Props.v proves each
-   model function equal to its reference: filter, rev, skipn/firstn, concat,
-   transpose, leaves, the cut-n-at-a-time chunking, the call logs) — except
-   for Shuffle, of which it only demands a permutation of the input.  So an
-   observation satisfies the property iff it is the model's, and for Shuffle
-   iff it is a panic-free rearrangement of the input. *)
+(* The property determines every observable uniquely — except for Shuffle, of
+   which it only demands a permutation of the input.  So an observation
+   satisfies the property iff it is the one the REFERENCE definitions give
+   ([c12_spec]; C12_model_is_reference proves the model equal to them), and for
+   Shuffle iff it is a panic-free rearrangement of the input. *)
 Definition c12_holds (w obs : list Z) : bool :=
   match w with
   | 15 :: _seed :: a' =>
@@ -133,5 +189,5 @@ Definition c12_holds (w obs : list Z) : bool :=
           end
       | _, _ => false
       end
-  | _ => zlist_eqb obs (c12_run w)
+  | _ => zlist_eqb obs (c12_spec w)
   end.
